@@ -1,21 +1,53 @@
-import PepperProofs.ConstraintGenSeeds
+import PepperProofs.ConstraintGenFiles
 /-!
 # C05 — the constraint files honour the documented spuriousSSM input contract
+
+Model: `PepperModel/ConstraintGen.lean` — `getConstraints` (= `Convert.get_constraints`), `ssmFiles` (the `eq_map` /
+`wc_map` / `st_map` / `print_list` lines of `design()`), `readTriple` (= `load_input_files` of `spuriousSSM.c` for
+`template= wc= eq=`), and `PepperModel/Ssm.lean` — `Contract` (the documented contract), `constrain`,
+`testConsistency`.
 -/
 namespace Pepper.C05
-open Pepper Pepper.Pil Pepper.ConstraintGen Pepper.LinkSpec Pepper.Closure
+open Pepper Pepper.Pil Pepper.ConstraintGen
 
-/-- the three arrays have one length -/
-theorem arrays_equal_length {tbl : CodeTable} (hl : tbl.lawful = true) {mode : Layout} {spec : Spec}
-    (ok : SpecCodes tbl spec) {s : Seeds} {c : Cons} (hs : seeds mode spec = .ok s) (hb : build s = .ok c)
-    {a : Arrays} (ha : getConstraintsT tbl mode spec = .ok a) :
-    a.2.1.length = a.1.length ∧ a.2.2.length = a.1.length := by
-  obtain ⟨_, h | h | ⟨a', h⟩⟩ := getConstraintsT_spec hl ok hs hb
+/-- **The written files satisfy the contract and are accepted.**  Whenever `get_constraints` returns arrays (after
+    a successful seeding), the three texts `design()` writes are read back by the model of `load_input_files` to a
+    triple `t` of three arrays of one length which satisfies the documented contract `Ssm.Contract`: 1-based
+    indices in range; template blank exactly where `eq = 0`, and there `wc = -1`; every template letter a code;
+    `eq[eq[i]] = eq[i] ≤ i` (idempotent, lowest member); `wc` and the template constant on `eq` classes; `wc[i]`
+    itself a representative, different from `eq[i]`, with `wc[wc[i]] = eq[i]`; paired positions carrying
+    complementary codes; last position not blank.  And the C program's own acceptance test
+    (`test_consistency` after `constrain`) passes on the start sequence it builds, for every outcome `pick` of its
+    random draws.  Both layouts.
+
+    Not covered by this theorem (named `_partial` for that reason): the separator clause of `SsmContract` ("at least
+    one blank between strands and two between complexes", `sepsOk` against the layout's strand list) — it is a
+    statement about where the layout puts the strands (C04's `layout_exact`), checked by the harness on every
+    sampled document. -/
+theorem files_satisfy_contract_partial {mode : Layout} {spec : Spec} (ok : SpecCodes Generated.pilTable spec)
+    {s : Seeds} {c : Cons} (hs : seeds mode spec = .ok s) (hb : build s = .ok c)
+    {a : Arrays} (ha : getConstraints mode spec = .ok a) :
+    ∃ t, readTriple (ssmFiles a) = some t ∧ t.eq.length = t.N ∧ t.wc.length = t.N ∧
+      Ssm.contractB t = true ∧
+      ∀ pick : Nat → Nat, Ssm.testConsistency t (Ssm.constrain t (startOf t pick)) = true := by
+  obtain ⟨wf, h | h | ⟨a', h⟩⟩ := getConstraintsT_spec pil_lawful ok hs hb
   · exact absurd (h.1.symm.trans ha) (by simp)
   · exact absurd (h.1.symm.trans ha) (by simp)
-  · have : a' = a := by
+  · have e : a' = a := by
       have := h.1.symm.trans ha
       simpa using this
-    exact this ▸ ⟨h.2.2.len_wc, h.2.2.len_st⟩
+    have G := e ▸ h.2.2
+    have ct := contract_of_exact wf G
+    refine ⟨tripleOf a, readTriple_ssmFiles (arrFacts_of_exact wf G), ct.2.1, ct.2.2.1, decide_eq_true ct,
+      fun pick => consistent_of_contract ct pick⟩
+
+/-- The documented contract implies acceptance by `test_consistency` on the constrained start sequence, for any
+    triple (not only the generated ones) and any random draws. -/
+theorem contract_accepted {t : Ssm.Triple} (h : Ssm.contractB t = true) (pick : Nat → Nat) :
+    Ssm.testConsistency t (Ssm.constrain t (startOf t pick)) = true :=
+  consistent_of_contract (of_decide_eq_true h) pick
+
+/-- The written numbers are read back unchanged by the model of the `fscanf(" %lf")` loop, for every list. -/
+theorem numbers_read_back (l : List Int) : readInts (printInts l) = l := readInts_printInts l
 
 end Pepper.C05
